@@ -63,6 +63,9 @@ def repo_env(extra=None):
     return env
 
 
+PYFLAGS = [["-bb"], ["-W", "error"], ["-X", "dev"], ["-O"], ["-OO"], ["-u"], ["-X", "utf8"], ["-s"], ["-W", "error", "-bb", "-X", "dev"], ["-q"], ["-X", "importtime"][:0] + ["-R"]]
+
+
 def run_driver(script, jobs, out_dir, py=None, env=None, timeout=3600, name="drv"):
     """Run DRIVERS/script once per job (a JSON-serialisable dict passed as argv[1]) in parallel.
     Each job writes its own output file(s); returns list of (job, returncode, stderr_tail)."""
@@ -78,7 +81,10 @@ def run_driver(script, jobs, out_dir, py=None, env=None, timeout=3600, name="drv
             jobf = os.path.join(out_dir, "%s.%d.job" % (name, k))
             with open(jobf, "w") as jf:
                 json.dump(job, jf)
-            p = subprocess.Popen([py, "-B", os.path.join(DRIVERS, script), jobf],
+            # interpreter options are ambient settings too: every fourth job of a batch runs under one of them (only the
+            # repository's default interpreter; the drivers themselves are clean under all of them)
+            flags = PYFLAGS[(k // 4) % len(PYFLAGS)] if (k % 4 == 2 and py == REPO_PY and not (env or {}).get("PYTHONOPTIMIZE")) else []
+            p = subprocess.Popen([py, "-B"] + flags + [os.path.join(DRIVERS, script), jobf],
                                  env=repo_env(env), stdout=subprocess.DEVNULL, stderr=errf,
                                  cwd=out_dir)
             running.append((k, job, p, errf))
